@@ -1,59 +1,95 @@
 // C13 — identify attributes what it learns only to the authenticated peer, within bounds.
 //
-// Full-stack, lock-level simulation. OBSERVER: a real basic host (identify service under test, real swarm,
-// upgrader, noise|insecure, yamux, pstoremem, event bus) on simnet. BYZANTINE peer: a real swarm/transport/upgrader
-// node WITHOUT basic host; its /ipfs/id/1.0.0 and /ipfs/id/push/1.0.0 behaviour is a generator (gen.go): the harness
-// negotiates multistream itself and writes hand-made, varint-delimited identify protobufs. Connections byz->observer
-// are dialled through byz's real TCP transport + upgrader directly (Transport.Dial), which is the only way to hold
-// SEVERAL connections to one peer (the swarm would reuse the first); optionally the first connection is dialled by the
-// observer (Host.Connect) and served by byz's swarm. Two honest basic hosts are connected to the observer, a third
-// honest peer is known from the peerstore only, a fourth identity appears only inside byzantine messages.
+// Full-stack, lock-level simulation (every lock / channel operation / go statement of the instrumented stack is a
+// scheduling decision of the seeded scheduler).
+//
+// OBSERVER: a real basic host (identify service under test, real swarm, upgrader, noise|insecure, yamux, pstoremem,
+// pstoremanager, event bus) on simnet. Its peerstore is the real pstoremem behind a pass-through (slowPS) that counts
+// and optionally delays the calls about the byzantine peer; it changes no result.
+// BYZANTINE peer: a real swarm/transport/upgrader node WITHOUT basic host; its /ipfs/id/1.0.0 and /ipfs/id/push/1.0.0
+// behaviour is a generator (gen.go): the harness negotiates multistream itself and writes hand-made, varint-delimited
+// identify protobufs. Connections byz->observer are dialled through byz's real TCP transport + upgrader directly
+// (Transport.Dial): the only way to hold SEVERAL connections to one peer (the swarm would reuse the first);
+// optionally the first connection is dialled by the observer (Host.Connect) and served by byz's swarm.
+// HONEST: H1, H2 real basic hosts connected to the observer; H3 known to the observer from its peerstore only
+// (addresses, protocols, agent, key, certified record); U appears only inside byzantine messages.
 //
 // One run: 1-3 connections (each identify REQUEST of the observer answered by a drawn behaviour: message, stall,
-// delay, reset, empty, truncated, half, decline), then 0-4 actions started together as tasks: identify PUSH of a
-// generated message on a drawn connection, close of one connection or of all of them, from either side, started
-// immediately or when the observer's raw socket of a drawn connection reaches a drawn I/O call index (so the
-// close lands inside the handshake, the identify exchange or the push). Then quiescence (12 virtual seconds: past
-// the identify timeout), oracles, a long clock advance with the remaining connections, the final closes, a last
-// advance past RecentlyConnectedAddrTTL.
+// delay, reset, empty, truncated, half, write+reset, decline), then 0-4 actions started as tasks: identify PUSH of
+// a generated message on a drawn connection; close of one connection or of all of them, by byz or by the observer;
+// honest H1 registering a protocol (its real identify pushes concurrently). An action starts at once, or when the
+// observer's raw socket of a drawn connection reaches a drawn I/O call index (inside the handshake, the identify
+// exchange or the push), or when the observer's identify makes its j-th peerstore call about byz, with that call
+// held back for 0|400|1200 scheduler decisions (a pause at a chosen point of consumeMessage / Disconnected).
+// In a fifth of the runs byz's identity is a fixed RSA key (peer ID does not embed the key) and in half of those the
+// application forgets byz (Peerstore.RemovePeer) before the pushes, so that identify's "store the key we were sent"
+// path is reached. Then quiescence (12 virtual seconds: past the identify timeouts), oracles, a clock advance with
+// the remaining connections, the final closes, a last advance past RecentlyConnectedAddrTTL.
 //
-// Oracles (all at quiescent instants; readings of the statement, weaker where it is silent):
-//  cross-talk        observer's peerstore entries (Addrs, Protocols, key, AgentVersion, ProtocolVersion, certified
-//                    record) of H1, H2, H3, U and the set of peers known are identical before/after the byzantine
-//                    activity; the observer's own entry keeps its key and gains no address from a byzantine message.
-//  pubkey            the key stored for byz, if any, hashes to byz's ID.
-//  addr-not-vouched  Addrs(byz) ⊆ pre-existing ∪ vouched, where vouched (computed by the generator by construction)
-//                    = unsigned lists of every message sent (all chunks) ∪ addresses of records sealed by byz's own
-//                    key for byz's own ID under the peer-record domain and left intact. WEAKER than "signed list
-//                    replaces unsigned list": the statement only forbids using a record that does not validate.
-//                    For an address with a trailing /p2p/<id> the bare form is accepted too.
-//  foreign-suffix    no stored address of byz ends in /p2p/<other peer>.
-//  caps              len(Protocols(byz)) <= 1024, len(Addrs(byz)) <= 500 + pre-existing (the documented constants
-//                    maxPeerProtocols / connectedPeerMaxAddrs of id.go, used as upper bounds only); after the final,
-//                    quiescent close of the last connection <= 20 + permanent pre-existing (recentlyConnectedPeerMaxAddrs,
-//                    "number of addresses to keep for peers we have disconnected from") — asserted only when that
-//                    last close happened at quiescence (a message consumed after the disconnect may legally add more).
-//                    The protocol cap is only observable when the peerstore's own limit (128) is raised: a drawn
-//                    half of the runs builds the observer's pstoremem with WithMaxProtocols(1<<20).
-//  addr-lost-while-connected   if the FIRST connection was never closed (so the peer was connected without a gap),
-//                    every address present at quiescence (minus harness-inserted short-TTL ones) is still returned by
-//                    Addrs after a clock advance of 30 min | 2 h. (2 x RecentlyConnectedAddrTTL is enough to tell a
-//                    downgraded address from a connected one; 2 h is drawn in a quarter of the runs.)
-//  addr-kept-after-disconnect  after every connection is closed, RecentlyConnectedAddrTTL + 2 min later Addrs(byz)
-//                    ⊆ addresses the harness inserted with PermanentAddrTTL.
-//  identify-wait     for every connection the observer's swarm announced (Connected notifee), the channel of
-//                    IdentifyWait(conn) closes within 15 s (identify timeout 5 s for opening + 5 s stream deadline +
-//                    slack), also when the connection closes mid-identify or the responder stalls.
-//  events            EvtPeerIdentificationCompleted: Peer == Conn.RemotePeer(); an event carrying a byzantine tag
-//                    names byz and the connection that message was sent on, at most once per send; an event for an
-//                    honest peer carries that peer's agent string. EvtPeerIdentificationFailed names only peers that
-//                    had a connection, and never an honest peer (their links are fault-free).
+// Oracles (all at quiescent instants; readings of the statement, the weaker one where it is silent):
 //
-// Sensitivity (mutations applied one at a time to a private copy of the instrumented overlay; see the report at the
-// end of this comment block once filled in): MUTATIONS-TRIED is maintained below.
+//	cross-talk/<peer>  the observer's peerstore entries (Addrs, Protocols, key, AgentVersion, ProtocolVersion, certified
+//	                  record, membership in PeersWithKeys/PeersWithAddrs) of H1, H2, H3, U and the set of peers known are
+//	                  identical before/after the byzantine activity (H1 may have gained the protocol it announced
+//	                  itself); the observer's own entry keeps its key and gains no address from a byzantine message.
+//	pubkey-mismatch   the key stored for byz, if any, hashes to byz's ID.
+//	addr-not-vouched  Addrs(byz) ⊆ pre-existing ∪ vouched, where vouched (computed by the generator BY CONSTRUCTION,
+//	                  not by asking the code under test) = unsigned lists of every message sent (all chunks) ∪ addresses
+//	                  of records sealed by byz's own key for byz's own ID under the peer-record domain and left intact.
+//	                  WEAKER than "a signed list replaces the unsigned list": the statement only forbids using a record
+//	                  that does not validate. For an address with a trailing /p2p/<id> the bare form is accepted too.
+//	foreign-suffix-stored  no stored address of byz ends in /p2p/<other peer>.
+//	protocol-cap / address-cap  len(Protocols(byz)) <= 1024, len(Addrs(byz)) <= 500 + pre-existing (the documented
+//	                  constants maxPeerProtocols / connectedPeerMaxAddrs of id.go, as upper bounds only; opts.go documents
+//	                  no option for them). The protocol cap is only observable when pstoremem's own limit (128) is
+//	                  raised: half of the runs build the observer's peerstore with WithMaxProtocols(1<<20).
+//	address-cap-after-disconnect  after the final close of the last connection AT QUIESCENCE at most 20 addresses
+//	                  beyond the pre-existing ones remain (recentlyConnectedPeerMaxAddrs: "number of addresses to keep
+//	                  for peers we have disconnected from"). Not asserted when the last close raced with activity: a
+//	                  message consumed after the disconnect may legally add more.
+//	addr-lost-while-connected   if the FIRST connection was never closed (so the peer was connected without a gap),
+//	                  every address present at quiescence (minus harness-inserted short-TTL ones) is still returned by
+//	                  Addrs after RecentlyConnectedAddrTTL + 2 min (enough to tell any finite, downgraded lifetime from
+//	                  the connected one) or, in 1/8 of the runs, 2 h. In half of the runs all other connections are
+//	                  closed at quiescence first (non-last disconnects).
+//	addr-kept-after-disconnect  after every connection is closed, RecentlyConnectedAddrTTL + 2 min later Addrs(byz)
+//	                  ⊆ addresses the harness inserted with PermanentAddrTTL. (Addrs() filters expiry, so this does
+//	                  not depend on address-book GC.)
+//	identify-wait-not-released  for every connection the observer's swarm announced (Connected notifee), the channel of
+//	                  IdentifyWait(conn) closes within 15 s (5 s timeout for opening + 5 s stream deadline + slack),
+//	                  also when the connection closes mid-identify, the responder stalls or declines.
+//	event-*           EvtPeerIdentificationCompleted: Peer == Conn.RemotePeer(); an event carrying a byzantine tag
+//	                  names byz and the very connection that message was sent on, at most once per send; an event for
+//	                  an honest peer carries that peer's agent string. EvtPeerIdentificationFailed names only peers
+//	                  that had a connection, and never an honest peer (their links are fault-free).
 //
-// MUTATIONS-TRIED:
-//   (filled in after the sensitivity runs)
+// A refused push / failed identify (rate limit, oversized chunk, >9 chunks, reset, timeout) is always legal: every
+// oracle is an upper bound on what may be recorded.
+//
+// MUTATIONS TRIED (one at a time, on a private copy of the instrumented overlay; 6 workers x 40 s; "n/6" = workers
+// that reported the class, all within the first ~100 runs of a worker unless noted):
+//
+//	consumeSignedPeerRecord: rec.PeerID != p check removed ................ 6/6 C13/addr-not-vouched
+//	consumeSignedPeerRecord: envelope signer != p check removed ............ 6/6 C13/addr-not-vouched
+//	signedPeerRecordFromMessage: envelope unmarshalled without validation .. 6/6 C13/addr-not-vouched
+//	record failing the peer checks still used for its addresses ............ 6/6 C13/addr-not-vouched
+//	consumeMessage: p taken from the message's public key .................. 6/6 C13/cross-talk/{H1,H2,H3,U,peer-set,self-addr}
+//	record addresses stored under rec.PeerID ............................... 6/6 C13/cross-talk/{...}
+//	Disconnected: no downgrade on the last disconnect ...................... 6/6 C13/addr-kept-after-disconnect (+ address-cap-after-disconnect)
+//	Disconnected: downgrade also on a non-last disconnect .................. 6/6 C13/addr-lost-while-connected
+//	maxPeerProtocols truncation removed .................................... 6/6 C13/protocol-cap
+//	connectedPeerMaxAddrs truncation removed ............................... 6/6 C13/address-cap
+//	recentlyConnectedPeerMaxAddrs truncation removed ....................... 6/6 C13/address-cap-after-disconnect
+//	IdentifyWait channel closed only on success ............................ 6/6 C13/identify-wait-not-released
+//	EvtPeerIdentificationFailed emitted with the LOCAL peer ................ 6/6 C13/event-failed-wrong-peer
+//	consumeReceivedPubKey ID check removed AND pstoremem key book check
+//	  removed (two sites) .................................................. 6/6 C13/pubkey-mismatch (RSA + wipe stratum, ~8 s)
+//	consumeReceivedPubKey ID check removed alone ........................... MISSED, by construction: pstoremem's
+//	  AddPubKey refuses a key that does not match the ID, and with a key already stored identify only compares; the
+//	  mutant is equivalent as far as the peerstore can tell (defence in depth).
+//	Disconnected without addrMu (race) ..................................... 6/6 C13/addr-kept-after-disconnect (needs the held peerstore call)
+//	consumeMessage reads Connectedness before taking addrMu (race with a
+//	  two-decision window, nothing to hold) ................................ 1/8 workers in 50 s in two of three attempts
 package c13
 
 import (
@@ -99,7 +135,7 @@ const (
 	quiesce               = 12 * time.Second // > identify timeout for opening + stream deadline
 	honestAgentPrefix     = "honest/"
 	observerAgent         = "observer/1"
-	maxPushesPerRun       = 4 // documented push rate limit: burst 10 per /24
+	maxPushesPerRun       = 4  // documented push rate limit: burst 10 per /24
 	maxTriggerCreation    = 45 // a whole connection (handshake + identify) is 20-35 I/O calls on the observer's socket
 	maxTriggerDuringPhase = 20 // a push is 8-15
 	maxTriggerPeerstore   = 10 // consumeMessage makes 8 of the counted peerstore calls
@@ -210,15 +246,15 @@ type plan struct {
 	rsaByz    bool // byz's identity is an RSA key: its peer ID does not embed the public key
 	wipe      bool // rsaByz only: the application forgets byz (Peerstore.RemovePeer) before the action phase, so the
 	//              observer holds NO key for byz while identify messages carrying keys arrive
-	slow      int  // scheduler yields the observer's peerstore spends in every call about byz ("slow peerstore")
-	byzIP     string
-	pre       int // 0 nothing, 1 byz listen addr permanent, 2 byz listen addr + one more with TempAddrTTL
-	conns     []connPlan
-	overlap   bool // do not wait for quiescence between the connection phase and the action phase
-	acts      []actPlan
-	longAdv   bool // 2 h instead of RecentlyConnectedAddrTTL + 2 min
-	trim      bool // close all but the first connection (at quiescence) before the long advance
-	finalObs  bool // final closes by the observer
+	slow     int // scheduler yields the observer's peerstore spends in every call about byz ("slow peerstore")
+	byzIP    string
+	pre      int // 0 nothing, 1 byz listen addr permanent, 2 byz listen addr + one more with TempAddrTTL
+	conns    []connPlan
+	overlap  bool // do not wait for quiescence between the connection phase and the action phase
+	acts     []actPlan
+	longAdv  bool // 2 h instead of RecentlyConnectedAddrTTL + 2 min
+	trim     bool // close all but the first connection (at quiescence) before the long advance
+	finalObs bool // final closes by the observer
 }
 
 func drawSend(g simrt.Gen, w *world, idx *int, push bool) sendPlan {
@@ -396,27 +432,27 @@ type exec struct {
 	O, B *simhost.Node
 	H    []*simhost.Node
 
-	conns     []*bconn
-	obsConns  []*obsConn
-	events    []evRec
-	sends     []*sendRec
-	raws      []*rawPair
-	ps        peerstore.Peerstore // the observer's real pstoremem (harness reads go here, not through slowPS)
-	psArmed   bool
-	psCalls   int
-	psTrig    []*trigger
-	psLog     []psCall
-	pending   int
-	muxFull   *msmux.MultistreamMuxer[protocol.ID]
-	muxNoID   *msmux.MultistreamMuxer[protocol.ID]
-	phaseB    bool
+	conns        []*bconn
+	obsConns     []*obsConn
+	events       []evRec
+	sends        []*sendRec
+	raws         []*rawPair
+	ps           peerstore.Peerstore // the observer's real pstoremem (harness reads go here, not through slowPS)
+	psArmed      bool
+	psCalls      int
+	psTrig       []*trigger
+	psLog        []psCall
+	pending      int
+	muxFull      *msmux.MultistreamMuxer[protocol.ID]
+	muxNoID      *msmux.MultistreamMuxer[protocol.ID]
+	phaseB       bool
 	honestPushed bool
-	quiet     bool // past the first quiescent check: closes from here on race with nothing
-	fired     int
-	preAll    map[string]bool
-	prePerm   map[string]bool
-	preShort  map[string]bool
-	completed map[string]int // tag -> completed events
+	quiet        bool // past the first quiescent check: closes from here on race with nothing
+	fired        int
+	preAll       map[string]bool
+	prePerm      map[string]bool
+	preShort     map[string]bool
+	completed    map[string]int // tag -> completed events
 }
 
 func (x *exec) logf(format string, a ...any) { x.o.Logf(format, a...) }
